@@ -467,6 +467,17 @@ func runCodec(e *core.Env) {
 				shr := sp.ServerPackerInfo().Headroom
 				rplen := r.Pick(0, 1, plen, r.Range(0, max(1, limit)))
 				clientLimit := zerocopy.MaxPacketSizeForAddr(mtu, netip.MustParseAddr(r.PickStr("192.0.2.1", "2001:db8::2")))
+				if r.Chance(1, 3) {
+					// replies that fill the client's budget exactly (no room left for padding), one less, one more
+					ohdR := socks5.LengthOfAddrFromAddrPort(src)
+					switch {
+					case strings.HasPrefix(p.name, "ss2022"):
+						ohdR += 16 + ss2022.UDPServerMessageHeaderFixedLength + 16
+					case p.name == "socks5":
+						ohdR += 3
+					}
+					rplen = max(0, clientLimit-ohdR+r.Pick(-1, 0, 0, 1))
+				}
 				rfront := shr.Front + r.Pick(0, 0, 5)
 				rb := make([]byte, rfront+rplen+max(shr.Rear, 16))
 				fillCanary(rb)
